@@ -6,6 +6,6 @@ CONSTANTS
   Format = "msgpack"
   MaxLen = 4
   ExhLen = 2
-  Reps = {0, 1, 4, 12, 97, 127, 128, 129, 145, 161, 162, 191, 192, 193, 195, 196, 199, 202, 204, 208, 212, 217, 220, 255}
+  Reps = {0, 1, 97, 128, 129, 145, 161, 192, 196, 199, 212, 255}
   OnlyAccepted = FALSE
   TokMode = "bytes"
